@@ -191,13 +191,16 @@ def judge_c02(idx, utils, cset, bs, n_cols, select):
 def output_preds(utils, cset, n_cols):
     """Predicates of the *observed utilities* used to pin known findings to
     the specific situation in which they manifest."""
-    p = {"tied_row_max": False, "allnan_row": False}
+    p = {"tied_row_max": False, "allnan_row": False, "row_mass_deficit": False}
     try:
         u = np.asarray(utils, dtype=float)
         if u.ndim != 2:
             return p
-        for row in u:
+        for i, row in enumerate(u):
             fin = row[~np.isnan(row)]
+            if i >= 1 and fin.size and np.all(fin >= 0) and fin.sum() < 1 - 1e-6:
+                # a row of sampling probabilities whose visible mass is < 1: the rest sits on an already selected (masked) sample
+                p["row_mass_deficit"] = True
             if fin.size == 0:
                 p["allnan_row"] = True
                 continue
